@@ -4,9 +4,10 @@ import os, re, subprocess, tempfile, glob
 ALLOWED = {"propext", "Classical.choice", "Quot.sound"}
 
 
-def audit(theorems, leandir, allowed_extra=()):
+def audit(theorems, leandir, allowed_extra=(), imports=None):
     allowed = ALLOWED | set(allowed_extra)
-    src = "import MeddlyModel\n" + "".join("#print axioms %s\n" % t for t in theorems)
+    hdr = "".join("import %s\n" % m for m in imports) if imports else "import MeddlyModel\n"
+    src = hdr + "".join("#print axioms %s\n" % t for t in theorems)
     with tempfile.NamedTemporaryFile("w", suffix=".lean", dir=leandir, delete=False) as f:
         f.write(src)
         path = f.name
